@@ -215,3 +215,13 @@ Print Assumptions C16_setoption_exact.
 Print Assumptions C16_legal_keeps_safe.
 Print Assumptions C16_reachable_legal_pos.
 Print Assumptions C16_make_preserves_legal_pos.
+
+(* tie to the source: the constants the model copies from the Go source equal what the running engine reports
+   (gen/Tables_gen.v is regenerated on every run by `verifh dump-tables`) *)
+From FG.gen Require Import Tables_gen.
+From Coq Require Import ZArith NArith. (* consts *)
+From FG Require ConstTie.
+From FG Require UciModel.
+Theorem C16_model_constants_dumped :
+  Z.of_nat UciModel.MaxMoves = c_max_moves /\ Z.of_nat UciModel.RebaseAt = (c_max_moves - c_max_depth - 2)%Z.
+Proof. exact ConstTie.ucimodel_constants_dumped. Qed.
